@@ -171,12 +171,13 @@ def write_grid_v1(model_dir, names, band_names, band_wav, grid, errgrid=None, ap
     pkg.write_parameters(model_dir, [names[i] for i in order],
                          {k: np.asarray(v)[order] for k, v in params.items()})
     errgrid = grid * 0.01 if errgrid is None else errgrid
-    scale_ = {'mJy': 1.0, 'Jy': 1e-3, 'uJy': 1e3}[flux_unit]       # the truth grid is in mJy; the file may store another unit
     per_band = isinstance(apertures, (list, tuple))          # one aperture table per band (each convolved file carries its own)
     for f, (bn, bw) in enumerate(zip(band_names, band_wav)):
+        fu = flux_unit[f] if isinstance(flux_unit, (list, tuple)) else flux_unit      # (every convolved file declares its own unit)
+        scale_ = {'mJy': 1.0, 'Jy': 1e-3, 'uJy': 1e3}[fu]       # the truth grid is in mJy; the file may store another unit
         pkg.write_convolved_file(os.path.join(model_dir, 'convolved', bn + '.fits'),
                                  [names[i] for i in order], apertures[f] if per_band else apertures,
-                                 grid[order, :, f] * scale_, errgrid[order, :, f] * scale_, bw, fmt=fmt, gz=gz, unit=flux_unit)
+                                 grid[order, :, f] * scale_, errgrid[order, :, f] * scale_, bw, fmt=fmt, gz=gz, unit=fu)
     return order
 
 
